@@ -20,7 +20,7 @@ TECHNIQUE = 'static: typestate gate (who inspects Data, blocking inner() on ever
 RULE_TEXT = "one obligation per accessor, per state-inspecting body, per decision-table row of Data::inner / inner_noblock, per job ordering site"
 
 
-def run(ctx, report):
+def _run_rules(ctx, report):
     for config in ctx.configs:
         if not ctx.parallel(config):
             report.note("config %s: AsyncDispatcher is not compiled without the `parallel` feature" % config)
@@ -32,3 +32,10 @@ def run(ctx, report):
         report.guard("C15.JOB", F.check_family, ctx, report, "C15.JOB", facts, config, (F.RUN, F.SETUP), lambda i: i.startswith("AsyncDispatcher"))
         report.guard("C15.TL", c12.order, ctx, report, facts, config, "C15.TL")
         report.guard("C15.TL", c12.where, ctx, report, facts, config, "C15.TL")
+
+
+def run(ctx, report):
+    _run_rules(ctx, report)
+    from .. import shared as _S
+    for config in ctx.configs:
+        report.guard("C15.ENCAPSULATED", _S.encapsulated, ctx, report, "C15.ENCAPSULATED", ctx.facts(config), config, "C15")
